@@ -16,7 +16,7 @@ PROP = dict(
     traced="operator bodies, clustering pre/post-processing and the solution writer: Spec.partition on every returned solution (ids, complete "
            "multi-task jobs on one tour, pickups before deliveries, unassigned with reasons, existing vehicle shifts, one tour per vehicle "
            "shift, at least one job per tour, breaks/reloads within what the shift defines)",
-    out_of_model="which concrete break/reload of a shift a stop corresponds to is checked by count, not by identity",
+    out_of_model="which concrete break of a shift a stop corresponds to is checked by count; reloads are told apart by tag and location (no more uses than the shift defines of that kind)",
     assumptions=[],
 )
 
